@@ -306,7 +306,10 @@ def main():
         hit = False
         for (rule, pat, props, what, demo) in K:
             if rule == o['rule'] and pat.search(o['key']):
-                findings.append({'rule': rule, 'key': o['key'], 'properties': props, 'what': what, 'demo': demo, 'loc_when_recorded': o['loc']})
+                e = {'rule': rule, 'key': o['key'], 'properties': props, 'what': what, 'demo': demo, 'loc_when_recorded': o['loc']}
+                if o.get('nf'):
+                    e['nf'] = o['nf']
+                findings.append(e)
                 hit = True
                 break
         if hit:
@@ -314,6 +317,8 @@ def main():
         for (rule, pat, cls, reason, req) in R:
             if rule == o['rule'] and pat.search(o['key']):
                 e = {'rule': rule, 'key': o['key'], 'class': cls, 'reason': reason}
+                if o.get('nf'):
+                    e['nf'] = o['nf']
                 if req:
                     e['requires'] = req
                 reviewed.append(e)
